@@ -2084,8 +2084,17 @@ def m_map_first_last(which):
         order=map_order(run,mm); i=order[0] if which=='first' else order[-1]
         return some(tuple2(Ref(mm.e[i],0),Ref(mm.e[i],1))) if not mm.is_set else some(Ref(mm.e[i],0))
     return m
+def m_map_pop(which):
+    def m(e,run,a,f):
+        mm=deref(a[0])
+        if not mm.e: return none()
+        order=map_order(run,mm); i=order[0] if which=='first' else order[-1]
+        ent=mm.e.pop(i)
+        return some(tuple2(ent[0],ent[1])) if not mm.is_set else some(ent[0])
+    return m
 def register_misc11(E):
     M=E.model
+    M(r'^(BTreeMap|BTreeSet)::pop_first$',m_map_pop('first')); M(r'^(BTreeMap|BTreeSet)::pop_last$',m_map_pop('last'))
     M(r'^(BTreeMap|BTreeSet|HashMap)::append$',m_map_append)
     M(r'^(HashMap|BTreeMap)::entry$',m_map_entry)
     M(r'Entry<.*>::or_insert$',m_entry_or_insert); M(r'Entry<.*>::or_insert_with$',m_entry_or_insert_with); M(r'Entry<.*>::or_default$',m_entry_or_default); M(r'Entry<.*>::and_modify$',m_entry_and_modify)
